@@ -1,6 +1,7 @@
 package main
 
 import (
+	"go/token"
 	"go/ast"
 	"strings"
 
@@ -32,6 +33,42 @@ func checkC10(c *Ctx) {
 				{"elements-canonical", `^noerr (bigEndian|littleEndian)\.Element\(`},
 				{"flag-read", `^noerr encoding/binary\.Read\(p0,.*pr\.withPrecompute\)$`},
 			})
+			// MUST-PASS: a decoded domain with the precompute flag set has its tables rebuilt from
+			// the decoded parameters on every accepting path (they depend on the decoded shift, not
+			// on what the receiver held before)
+			c.Instance("C10.codec", 1)
+			{
+				deleted := map[edge]bool{}
+				calls := 0
+				for _, b := range rf.Blocks {
+					for _, in := range b.Instrs {
+						if call, ok := in.(*ssa.Call); ok && calleeOf(&call.Call).Name == "preComputeTwiddles" {
+							calls++
+							for _, sc := range b.Succs {
+								deleted[edge{b.Index, sc.Index}] = true
+							}
+						}
+					}
+					if iff, ok := b.Instrs[len(b.Instrs)-1].(*ssa.If); ok {
+						if ld, ok := iff.Cond.(*ssa.UnOp); ok && ld.Op == token.MUL && descValue(ld.X, 0) == "pr.withPrecompute" {
+							deleted[edge{b.Index, b.Succs[1].Index}] = true
+						}
+					}
+				}
+				ok := calls > 0
+				where := ""
+				if ok {
+					r := reach(rf, rf.Blocks[0], deleted)
+					acc, _ := acceptReturns(rf, AcceptNilErr)
+					for _, a := range acc {
+						if r[a.ret.Block().Index] {
+							ok = false
+							where = p.Pos(instrPos(a.ret))
+						}
+					}
+				}
+				c.Ob("C10.codec", pk, funcKey(rf), "tables-rebuilt-when-flag-set", p.Pos(rf.Pos()), ok, funcKey(rf)+": the accepting return at "+where+" is reachable with the decoded precompute flag set but without rebuilding the twiddle/coset tables from the decoded parameters: a receiver that already held tables keeps them (wrong coset)")
+			}
 			sites, hits := rawReads([]*ssa.Function{rf})
 			_ = sites
 			reportFindings(c, p, "C10.codec", []*ssa.Function{rf}, hits, "no-raw-read")
